@@ -1,6 +1,7 @@
-//! C01 / C07 on struct shapes: Struct1/Struct2 with up to two `u8` fields (symbolic ids in the
-//! one-byte varint form and one full-width id), real skip walker, typed decoding through the real
-//! `StructDeserializer`/`FieldDeserializer`, real struct serializers, nesting limit.
+//! C01 / C07 on struct shapes: Struct1/Struct2 with two `u8` fields (ids in the one-byte varint
+//! form are literals, one full-width id is symbolic), real skip walker for the legacy struct,
+//! typed decoding through the real `Struct1/Struct2Deserializer`/`FieldDeserializer` driven as
+//! units, real struct serializers, nesting limit.
 //!
 //! `UnknownFields::new()` (a `std::collections::HashMap`) is constructed by every struct
 //! deserializer; `RandomState::new` is stubbed with fixed keys (it reaches TLS and `getrandom`). The
@@ -8,7 +9,6 @@
 //! struct only (a populated `HashMap<u32, Value>` is intractable, DESIGN.md section 1).
 use super::shape_common::*;
 use super::*;
-use crate::Struct;
 
 const STRUCT1: u8 = ValueKind::Struct1 as u8;
 const STRUCT2: u8 = ValueKind::Struct2 as u8;
@@ -18,122 +18,180 @@ pub(crate) fn fixed_random_state() -> std::collections::hash_map::RandomState {
     unsafe { std::mem::transmute::<(u64, u64), std::collections::hash_map::RandomState>((0, 0)) }
 }
 
-/// Typed decode of all fields as (id, u8) pairs, in wire order.
-fn run_struct(b: &[u8], d: u8) -> (Result<([(u32, u8); 2], usize), DeserializeError>, usize) {
-    let mut rd = b;
-    let r = (|| {
-        let mut s = Deserializer::new(&mut rd, d)?.deserialize_struct()?;
-        let mut out = [(0u32, 0u8); 2];
-        let mut n = 0;
-        while let Some(f) = s.deserialize()? {
-            let id = f.id();
-            let v = f.deserialize::<tags::U8, u8>()?;
-            if n < 2 {
-                out[n] = (id, v);
-            }
-            n += 1;
-        }
-        s.finish((out, n))
-    })();
-    (r, b.len() - rd.len())
-}
-
-#[kani::proof]
-#[kani::unwind(8)]
-#[kani::stub(std::collections::hash_map::RandomState::new, fixed_random_state)]
-fn q_c01_c07_shape_struct2() {
-    // ids in the one-byte form are literals (a symbolic first varint byte makes every later
-    // position symbolic for CBMC)
-    let i1: u8 = 3;
-    let i2: u8 = 250;
-    let x: u8 = kani::any();
-    let y: u8 = kani::any();
-    let enc = [STRUCT2, SOME, i1, U8, x, SOME, i2, U8, y, NONE];
-    check_wellformed(&enc, 2);
-    let (r, c) = run_struct(&enc, 0);
-    match r {
-        Ok((f, n)) => {
-            assert!(c == 10 && n == 2);
-            assert!(f[0] == (i1 as u32, x) && f[1] == (i2 as u32, y), "fields decoded wrongly");
-        }
-        Err(_) => panic!("typed struct decode failed"),
-    }
-    assert!(run_struct(&enc, 30).0.is_ok());
-    assert!(run_struct(&enc, 31).0 == Err(DeserializeError::TooDeeplyNested));
-    check_serialized(&enc, 2, |s| {
-        let mut s = s.serialize_struct2()?;
-        s.serialize::<tags::U8>(i1 as u32, x)?;
-        s.serialize::<tags::U8>(i2 as u32, y)?;
-        s.finish()
-    });
+fn all_prefixes_rejected(enc: &[u8]) {
     let mut l = 0;
-    while l < 10 {
-        check_prefix_rejected(&enc, l);
+    while l < enc.len() {
+        check_prefix_rejected(enc, l);
         l += 1;
     }
-    // empty struct, also through Value
-    let e0 = [STRUCT2, NONE];
-    check_wellformed(&e0, 1);
-    let (rv, cv) = run_value(&e0, 31);
-    match &rv {
-        Ok(Value::Struct(s)) => assert!(cv == 2 && s.0.is_empty()),
-        _ => panic!("empty struct did not decode"),
-    }
-    std::mem::forget(rv);
-    let (rv, _) = run_value(&e0, 32);
-    assert!(matches!(rv, Err(DeserializeError::TooDeeplyNested)));
-    std::mem::forget(rv);
 }
 
-#[kani::proof]
-#[kani::unwind(8)]
-#[kani::stub(std::collections::hash_map::RandomState::new, fixed_random_state)]
-fn q_c01_c07_shape_struct1() {
-    let i1: u8 = 3;
+fn enc1(x: u8, y: u8, w: [u8; 4]) -> [u8; 12] {
+    // second field with a full-width id
+    [STRUCT1, 2, 3, U8, x, 255, w[0], w[1], w[2], w[3], U8, y]
+}
+
+fn enc2(x: u8, y: u8) -> [u8; 10] {
+    [STRUCT2, SOME, 3, U8, x, SOME, 250, U8, y, NONE]
+}
+
+fn wide() -> [u8; 4] {
     let w: [u8; 4] = kani::any();
     kani::assume(w[3] != 0);
-    let x: u8 = kani::any();
-    let y: u8 = kani::any();
-    // second field with a full-width id
-    let enc = [STRUCT1, 2, i1, U8, x, 255, w[0], w[1], w[2], w[3], U8, y];
-    check_wellformed(&enc, 2);
-    let (r, c) = run_struct(&enc, 0);
-    match r {
-        Ok((f, n)) => {
-            assert!(c == 12 && n == 2);
-            assert!(f[0] == (i1 as u32, x) && f[1] == (u32::from_le_bytes(w), y));
-        }
-        Err(_) => panic!("typed struct decode failed"),
-    }
-    assert!(run_struct(&enc, 30).0.is_ok());
-    assert!(run_struct(&enc, 31).0 == Err(DeserializeError::TooDeeplyNested));
-    check_serialized(&enc, 2, |s| {
-        let mut s = s.serialize_struct1(2)?;
-        s.serialize::<tags::U8>(i1 as u32, x)?;
-        s.serialize::<tags::U8>(u32::from_le_bytes(w), y)?;
-        s.finish()
-    });
-    let mut l = 0;
-    while l < 12 {
-        check_prefix_rejected(&enc, l);
-        l += 1;
-    }
-    let e0 = [STRUCT1, 0];
-    check_wellformed(&e0, 1);
-    let (rv, cv) = run_value(&e0, 31);
-    match &rv {
-        Ok(Value::Struct(s)) => assert!(cv == 2 && s.0.is_empty()),
-        _ => panic!("empty struct did not decode"),
-    }
-    std::mem::forget(rv);
-    let (rv, _) = run_value(&e0, 32);
-    assert!(matches!(rv, Err(DeserializeError::TooDeeplyNested)));
-    std::mem::forget(rv);
-    // field count discipline of the V1 serializer
-    let mut buf = bytes::BytesMut::new();
-    let s1 = Serializer::new(&mut buf, 0).unwrap().serialize_struct1(1).unwrap();
-    assert!(s1.finish() == Err(SerializeError::TooFewElements));
+    w
 }
 
-#[cfg(verif_replay)]
-include!("/verif/.cache/replay/verif__shapes_struct.rs");
+mod struct1 {
+    use super::*;
+
+    #[kani::proof]
+    #[kani::unwind(14)]
+    #[kani::stub(std::collections::hash_map::RandomState::new, fixed_random_state)]
+    fn q_c01_c07_wellformed() {
+        let enc = enc1(kani::any(), kani::any(), wide());
+        check_wellformed(&enc, 2);
+    }
+
+    #[kani::proof]
+    #[kani::unwind(14)]
+    #[kani::stub(std::collections::hash_map::RandomState::new, fixed_random_state)]
+    fn q_c07_truncations() {
+        let enc = enc1(kani::any(), kani::any(), wide());
+        all_prefixes_rejected(&enc);
+    }
+
+    #[kani::proof]
+    #[kani::unwind(14)]
+    #[kani::stub(std::collections::hash_map::RandomState::new, fixed_random_state)]
+    fn q_c01_c07_typed() {
+        let (x, y, w): (u8, u8, [u8; 4]) = (kani::any(), kani::any(), wide());
+        let enc = enc1(x, y, w);
+        let mut rd: &[u8] = &enc;
+        let mut s = match Deserializer::new(&mut rd, 30).unwrap().deserialize_struct1() {
+            Ok(s) => s,
+            Err(_) => panic!("struct1 header rejected"),
+        };
+        assert!(s.len() == 2);
+        let f = s.deserialize().unwrap().unwrap();
+        assert!(f.id() == 3);
+        assert!(f.deserialize::<tags::U8, u8>() == Ok(x));
+        let f = s.deserialize().unwrap().unwrap();
+        assert!(f.id() == u32::from_le_bytes(w));
+        assert!(f.deserialize::<tags::U8, u8>() == Ok(y));
+        assert!(matches!(s.deserialize(), Ok(None)));
+        assert!(s.finish(()).is_ok());
+        assert!(rd.is_empty());
+        // one level deeper the field value is beyond the limit
+        let mut rd: &[u8] = &enc;
+        let mut s = match Deserializer::new(&mut rd, 31).unwrap().deserialize_struct1() {
+            Ok(s) => s,
+            Err(_) => panic!("struct1 header rejected"),
+        };
+        let f = s.deserialize().unwrap().unwrap();
+        assert!(f.deserialize::<tags::U8, u8>() == Err(DeserializeError::TooDeeplyNested));
+    }
+
+    #[kani::proof]
+    #[kani::unwind(14)]
+    fn q_c01_serialize() {
+        let (x, y, w): (u8, u8, [u8; 4]) = (kani::any(), kani::any(), wide());
+        let enc = enc1(x, y, w);
+        check_serialized(&enc, 2, |s: Serializer| {
+            let mut s = s.serialize_struct1(2)?;
+            s.serialize::<tags::U8>(3u32, x)?;
+            s.serialize::<tags::U8>(u32::from_le_bytes(w), y)?;
+            s.finish()
+        });
+        // field count discipline of the V1 serializer
+        let mut buf = bytes::BytesMut::new();
+        let s1 = Serializer::new(&mut buf, 0).unwrap().serialize_struct1(1).unwrap();
+        assert!(s1.finish() == Err(SerializeError::TooFewElements));
+    }
+
+    #[kani::proof]
+    #[kani::unwind(14)]
+    #[kani::stub(std::collections::hash_map::RandomState::new, fixed_random_state)]
+    fn q_c01_c07_empty_through_value() {
+        let e0 = [STRUCT1, 0];
+        check_wellformed(&e0, 1);
+        let (rv, cv) = run_value(&e0, 31);
+        match &rv {
+            Ok(Value::Struct(s)) => assert!(cv == 2 && s.0.is_empty()),
+            _ => panic!("empty struct did not decode"),
+        }
+        std::mem::forget(rv);
+        let (rv, _) = run_value(&e0, 32);
+        assert!(matches!(rv, Err(DeserializeError::TooDeeplyNested)));
+        std::mem::forget(rv);
+    }
+
+    #[cfg(verif_replay)]
+    include!("/verif/.cache/replay/verif__shapes_struct__struct1.rs");
+}
+
+mod struct2 {
+    use super::*;
+
+    /// the real `Struct2Deserializer` as a unit: field-wise typed decode, skip loop, finish
+    #[kani::proof]
+    #[kani::unwind(14)]
+    #[kani::stub(std::collections::hash_map::RandomState::new, fixed_random_state)]
+    fn q_c01_c07_typed() {
+        let (x, y): (u8, u8) = (kani::any(), kani::any());
+        let enc = enc2(x, y);
+        let mut rd: &[u8] = &enc;
+        let mut s = match Deserializer::new(&mut rd, 30).unwrap().deserialize_struct2() {
+            Ok(s) => s,
+            Err(_) => panic!("struct2 header rejected"),
+        };
+        let f = s.deserialize().unwrap().unwrap();
+        assert!(f.id() == 3);
+        assert!(f.deserialize::<tags::U8, u8>() == Ok(x));
+        let f = s.deserialize().unwrap().unwrap();
+        assert!(f.id() == 250);
+        assert!(f.deserialize::<tags::U8, u8>() == Ok(y));
+        assert!(matches!(s.deserialize(), Ok(None)));
+        assert!(s.finish(()).is_ok());
+        assert!(rd.is_empty());
+    }
+
+    #[kani::proof]
+    #[kani::unwind(14)]
+    #[kani::stub(std::collections::hash_map::RandomState::new, fixed_random_state)]
+    fn q_c01_c07_skip_unit() {
+        let enc = enc2(kani::any(), kani::any());
+        let mut rd: &[u8] = &enc;
+        match Deserializer::new(&mut rd, 30).unwrap().deserialize_struct2() {
+            Ok(s) => assert!(s.skip().is_ok()),
+            Err(_) => panic!("struct2 header rejected"),
+        }
+        assert!(rd.is_empty(), "skip consumes exactly what decoding consumes");
+        let mut rd: &[u8] = &enc;
+        match Deserializer::new(&mut rd, 31).unwrap().deserialize_struct2() {
+            Ok(s) => assert!(s.skip() == Err(DeserializeError::TooDeeplyNested)),
+            Err(_) => panic!("struct2 header rejected"),
+        }
+        // truncated: the terminator is missing
+        let mut rd: &[u8] = &enc[..9];
+        match Deserializer::new(&mut rd, 0).unwrap().deserialize_struct2() {
+            Ok(s) => assert!(s.skip() == Err(DeserializeError::UnexpectedEoi)),
+            Err(_) => panic!("struct2 header rejected"),
+        }
+    }
+
+    #[kani::proof]
+    #[kani::unwind(14)]
+    fn q_c01_serialize() {
+        let (x, y): (u8, u8) = (kani::any(), kani::any());
+        let enc = enc2(x, y);
+        check_serialized(&enc, 2, |s: Serializer| {
+            let mut s = s.serialize_struct2()?;
+            s.serialize::<tags::U8>(3u32, x)?;
+            s.serialize::<tags::U8>(250u32, y)?;
+            s.finish()
+        });
+    }
+
+    #[cfg(verif_replay)]
+    include!("/verif/.cache/replay/verif__shapes_struct__struct2.rs");
+}
